@@ -113,7 +113,9 @@ IsRelayout(a, b) ==
                 ELSE (CountLF(ga) >= 2) = (CountLF(gb) >= 2)
 
 RelViolations(rel, a, b) ==
-  IF ~a.ok \/ ~b.ok THEN {<<"SKIP", "a call did not return">>}
+  \* the same text with and without cursors: a call that returns a text without them and aborts with them
+  IF rel = "cursor" /\ a.ok /\ ~b.ok /\ a.in = b.in THEN {<<"C15", "text_unchanged">>}
+  ELSE IF ~a.ok \/ ~b.ok THEN {<<"SKIP", "a call did not return">>}
   ELSE
   CASE rel = "idem" ->
          IF ~(a.wf /\ b.in = a.out /\ SameCfgExcept(a, b, "none")) THEN {<<"SKIP", "idem precondition">>}
